@@ -108,13 +108,22 @@ class DupScenario(cmdscn.CmdScenario):
         for m in w.extra['msgs_seen']:
             if m.seq in pending or m.dup_of:
                 continue
-            if m.method not in self.dup_kinds:
+            if m.method not in self.dup_kinds and not (
+                    m.method == 'on_action_complete' and
+                    'wf_result' in self.dup_kinds):
                 continue
             if m.method == 'start_workflow' and \
                     m.kwargs.get('wf_ex_id') in (None, 'null'):
                 continue
             if m.method == 'on_action_complete' and \
-                    '"wf_action": "true"' in m.short():
+                    '"wf_action": "true"' in m.short() and \
+                    'wf_result' not in self.dup_kinds:
+                # (the result message of a sub-workflow: duplicated by the
+                # 'wf_result' fault kind only)
+                continue
+            if m.method == 'on_action_complete' and \
+                    '"wf_action": "true"' not in m.short() and \
+                    self.dup_kinds == ['wf_result']:
                 continue
 
             def do(m=m):
@@ -328,8 +337,10 @@ def scenarios(tier):
                 jobs.append((scn, 0 if quick else 1,
                              40 if quick else 1200, 1))
     for pname, prog, res, kw in stateful_programs():
-        for kind in ('start_task', 'on_action_complete', 'start_workflow'):
-            if kind == 'start_workflow' and 'subwf' not in pname:
+        for kind in ('start_task', 'on_action_complete', 'start_workflow',
+                     'wf_result'):
+            if kind in ('start_workflow', 'wf_result') and \
+                    'subwf' not in pname:
                 continue
             scn = DupScenario('%s/dup-%s' % (pname, kind), prog,
                               results=res, dup_kinds=[kind],
